@@ -207,7 +207,7 @@ class Machine:
 
     def _color_matrix_light(self) -> None:
         light = self._get_named_light()
-        if light is not None:
+        if light is not None and self._matrix_check(light):
             matrix = self._reg.matrix
             matrix = self._as_raw_matrix(matrix)
             matrix.find_replace(None, self._reg.default or [0, 0, 0, 0])
@@ -577,6 +577,13 @@ class Machine:
         if not isinstance(light, MultizoneLight):
             logging.warning(
                 'Light "{}" is not multi-zone.'.format(light.get_name()))
+            return False
+        return True
+
+    def _matrix_check(self, light) -> bool:
+        if not isinstance(light, MatrixLight):
+            logging.warning(
+                'Light "{}" is not matrix type.'.format(light.get_name()))
             return False
         return True
 
